@@ -132,53 +132,62 @@ def run(ctx, chk):
     R2 = chk.rule("R-TAB-2", "each of the six lookup functions is TABLE.iter().find(|i| key(i) == arg)[.expect] on its own table, "
                   "with key = i.opcode cast at most to the argument's type, compared by equality with the argument")
     nl = 0
+    from . import lookx
     for sty, (static, tab, en) in TABLE_OF.items():
         for fname in ("lookup_opcode", "get"):
             f = ctx.rspirv.fn(SYN, fname, sty)
             w = ctx.raw.where(fname, sty, "syntax.rs")
             nl += 1
             inst = "%s::%s" % (sty, fname)
-            try:
-                var, l, r, expect = lookup_shape(f, static)
-            except Anchor as ex:
-                chk.bad(R2, inst, str(ex), w)
-                continue
-            a, b = key_class(l, var), key_class(r, var)
-            if a[0] != "key":
-                a, b = b, a
             pname, pty = f["sig"]["params"][0]
-            if expect == "sorted":
-                # binary search: correct only if the table is strictly ascending in the key
-                expect = False
-                keys = [(ops.get(r["opcode"]) if tab == "core" else r["opcode"]) for r in t[tab]]
-                bad_at = [i for i in range(1, len(keys)) if keys[i - 1] is None or keys[i] is None or keys[i - 1] >= keys[i]]
-                chk.check(R2, not bad_at, inst + ":table-sorted",
-                          "%s uses a binary search but %s is not sorted by opcode: row %d (%s, %s) follows (%s, %s); %d out-of-order positions" % (
-                              inst, static, bad_at[0] if bad_at else 0, t[tab][bad_at[0]]["opname"] if bad_at else "", keys[bad_at[0]] if bad_at else "",
-                              t[tab][bad_at[0] - 1]["opname"] if bad_at else "", keys[bad_at[0] - 1] if bad_at else "", len(bad_at)), w)
-            good = a[0] == "key" and b[0] == "arg" and b[1] == pname
-            why = ""
-            if good:
-                if fname == "lookup_opcode":
-                    # key cast must be exactly the argument type (u16 for core: injective since all Op < 65536; u32 for ext)
-                    kc = a[1]
-                    if tab == "core":
-                        good = kc == pty and pty in ("u16", "u32") and b[2] is None
-                    else:
-                        good = kc in (None, pty) and b[2] is None and pty in ("u32", "spirv::Word", "Word")
-                    why = "key cast %s, argument type %s" % (kc, pty)
+            try:
+                outs = {}
+                casts = set()
+                for target in (0, 1, 2, None):
+                    r, h = lookx.lookup(ctx, sty, fname, static, target)
+                    outs[target] = r
+                    casts |= h.casts
+            except Anchor as ex:
+                # not a linear search: accept a binary search on a table that is sorted by the key
+                try:
+                    var, l, r_, expect = lookup_shape(f, static)
+                except Anchor as ex2:
+                    chk.bad(R2, inst, "lookup is neither an analysable linear search (%s) nor a binary search (%s)" % (ex, ex2), w)
+                    continue
+                if expect == "sorted":
+                    keys = [(ops.get(r0["opcode"]) if tab == "core" else r0["opcode"]) for r0 in t[tab]]
+                    bad_at = [i for i in range(1, len(keys)) if keys[i - 1] is None or keys[i] is None or keys[i - 1] >= keys[i]]
+                    chk.check(R2, not bad_at, inst + ":table-sorted",
+                              "%s uses a binary search but %s is not sorted by opcode: row %d (%s, %s) follows (%s, %s); %d out-of-order positions" % (
+                                  inst, static, bad_at[0] if bad_at else 0, t[tab][bad_at[0]]["opname"] if bad_at else "", keys[bad_at[0]] if bad_at else "",
+                                  t[tab][bad_at[0] - 1]["opname"] if bad_at else "", keys[bad_at[0] - 1] if bad_at else "", len(bad_at)), w)
                 else:
-                    if tab == "core":
-                        good = a[1] is None and b[2] is None
-                    else:
-                        good = a[1] is None and b[2] in ("spirv::Word", "u32", "Word")
-                    why = "key cast %s, argument cast %s" % (a[1], b[2])
-                if fname == "get":
-                    good = good and expect
+                    chk.bad(R2, inst, "lookup is not analysable: %s" % ex, w)
+                continue
+            if fname == "lookup_opcode":
+                want = {0: ("some", ("row", 0)), 1: ("some", ("row", 1)), 2: ("some", ("row", 2)), None: ("none",)}
+            else:
+                want = {0: ("row", 0), 1: ("row", 1), 2: ("row", 2)}
+            res_ok = all(outs[k] == v for k, v in want.items()) and (fname == "lookup_opcode" or (isinstance(outs[None], tuple) and outs[None][0] == "panic"))
+            # the comparison must be on values of the argument's width: for the core table a u16 argument against `opcode as u16`
+            # (injective because every Op discriminant fits 16 bits), or both widened to 32 bits; extended tables compare u32 words
+            wide = {"u16": 16, "u32": 32, "spirv::Word": 32, "Word": 32, "usize": 64, "u64": 64}
+            cast_ok = True
+            for kc, ac in casts:
+                if fname == "lookup_opcode" and tab == "core":
+                    kw = wide.get(kc)
+                    aw = wide.get(ac, wide.get(pty.replace(" ", ""), None))
+                    cast_ok = cast_ok and kw is not None and kw >= 16 and kw == aw
+                elif fname == "get" and tab == "core":
+                    cast_ok = cast_ok and wide.get(kc, 99) >= 16 and (kc is None) == (ac is None) and wide.get(kc, 0) == wide.get(ac, 0)
+                elif fname == "lookup_opcode":
+                    cast_ok = cast_ok and wide.get(kc, 32) == 32 and wide.get(ac, 32) == 32
                 else:
-                    good = good and not expect
-            chk.check(R2, good, inst, "lookup is not an equality search on the opcode: %s == %s (%s)" % (show(l), show(r), why), w,
-                      sample={"table": static, "key": show(l), "arg": show(r)})
+                    cast_ok = cast_ok and wide.get(kc, 32) == 32 and wide.get(ac) == 32
+            chk.check(R2, res_ok and cast_ok and bool(casts), inst,
+                      "on an abstract table the lookup yields %s (comparison casts %s); expected the row whose opcode equals the argument, %s otherwise" % (
+                          {str(k): str(v)[:40] for k, v in outs.items()}, sorted(map(str, casts)), "None" if fname == "lookup_opcode" else "a panic (unreachable by R-TAB-1)"), w,
+                      sample={"casts": sorted(map(str, casts))})
     chk.floor(R2, "lookup functions", nl, 6)
 
     R3 = chk.rule("R-TAB-3", "every row is well-formed: IdResultType only first, IdResult only first or right after IdResultType, at "
